@@ -30,6 +30,55 @@ def max_abundance():
     return {x["symbol"]: max(float(Fraction(i["abundance"])) for i in x["isotopes"]) for x in rows if x["table"] == "global"}
 
 
+def iso_table():
+    rows = [json.loads(l) for l in (WORK / "dump.jsonl").read_text().splitlines() if l.strip()]
+    return {x["symbol"]: [(Fraction(i["mass"]), Fraction(i["abundance"])) for i in x["isotopes"]] for x in rows if x["table"] == "global"}
+
+
+def pruned_oracle(ents, t, isos):
+    """the arrangements of probability >= t, merged by how many atoms take which isotope: [(mass, probability * multiplicity)],
+    and the smallest relative distance of any visited arrangement's probability to t.  Independent of the code's route
+    (repeated squaring with intermediate pruning): a depth-first walk over the number of atoms on each minor isotope, cut as
+    soon as the running probability is below t (every further factor is at most 1)."""
+    from math import comb
+    margin = [Fraction(10)]
+
+    def element(sym, n):
+        iso = sorted(isos[sym], key=lambda q: -q[1])
+        major, minors = iso[0], iso[1:]
+        out = []
+
+        def walk(j, left, mass, prob, mult):
+            if j == len(minors):
+                pr = prob * major[1] ** left
+                out.append((mass + left * major[0], pr, mult))
+                return
+            for k in range(0, left + 1):
+                pk = prob * minors[j][1] ** k
+                if pk < t * Fraction(999, 1000):
+                    break
+                walk(j + 1, left - k, mass + k * minors[j][0], pk, mult * comb(left, k))
+        walk(0, n, Fraction(0), Fraction(1), 1)
+        return out
+    acc = [(Fraction(0), Fraction(1), 1)]
+    for sym, n in ents:
+        part = element(sym, n)
+        nxt = []
+        for m1, p1, k1 in acc:
+            for m2, p2, k2 in part:
+                p = p1 * p2
+                if p >= t * Fraction(999, 1000):
+                    nxt.append((m1 + m2, p, k1 * k2))
+        acc = nxt
+        if len(acc) > 20000:
+            return None, None
+    for _, p, _ in acc:
+        if t > 0:
+            margin[0] = min(margin[0], abs(p / t - 1))
+    keep = [(m, p * k) for m, p, k in acc if p >= t]
+    return keep, margin[0]
+
+
 def parse_dist(s):
     if s == "-":
         return []
@@ -145,6 +194,7 @@ def run(r: Run):
     r.prove(MODULES)
     if r.tier == "thorough":
         r.leanchecker(MODULES)
+    rng2 = random.Random(r.seed + 11)
     cases = gen_cases(r)
     lines = [f"conv\t{p}\t0\t0/1\t{fr(t)}\t{form}" for p, t, form in cases]
     # (one interpreter process for the whole stream: "the next call on the same thread" must be the next line)
@@ -244,6 +294,47 @@ def run(r: Run):
             corr_ok = False
             r.violation(clause, wit, f"isotopic_convolution({p}, z={z}, carrier={float(c)}, {form}): {detail}",
                         observed={"lines": [clines[2 * k + 1]], "impl": couts[2 * k + 1][:300]})
+    # counts 15 … 33 on elements with several isotopes (the repeated-squaring power with intermediate pruning takes all of its
+    # branches): the full expansion has up to 10^30 arrangements, the pruned one a few hundred — compared with the model (same
+    # route) and with an independent pruned enumeration (depth-first over isotope occupancies)
+    isos = iso_table()
+    multi2 = sorted(sy for sy, l in isos.items() if len(l) >= 2)
+    big, tries = [], 0
+    want_big = 160 if r.tier == "thorough" else 40
+    while len(big) < want_big and tries < 5000:
+        tries += 1
+        els = rng2.sample(multi2, rng2.choice([1, 1, 2, 3]))
+        ents = [(e, rng2.choice([15, 16, 17, 31, 32, 33, 9, 24])) for e in els]
+        t = rng2.choice([Fraction(1, 1000), Fraction(1, 100), Fraction(1, 20), Fraction(3, 10)])
+        keep, margin = pruned_oracle(ents, t, isos)
+        if keep is None or not keep or margin < Fraction(1, 10 ** 6) or len(keep) > 3000:
+            continue
+        big.append((ents, t, keep))
+    blines = [f"conv\t{','.join(f'{e}:0={n}' for e, n in ents)}\t0\t0/1\t{fr(t)}\t{'vec' if k % 2 else 'map'}" for k, (ents, t, _) in enumerate(big)]
+    bimpl = r.impl("conv", blines)
+    bmodel = r.model("convm", blines, stall=600)
+    for (ents, t, keep), line, il, ml in zip(big, blines, bimpl, bmodel):
+        ip = parse_pattern(il)
+        r.case(("pruned-big", len(ents), float(t), isinstance(ip, str)), {"line": line, "impl": il[:160]})
+        wit = {"t": str(t), "counts": sorted(n for _, n in ents)[:3], "pruned": True}
+        if isinstance(ip, str):
+            corr_ok = False
+            r.violation("total", dict(wit, outcome=il.split(" ")[0]), f"isotopic_convolution({line.split(chr(9))[1]}, t={float(t)}): {il[:60]}", observed={"lines": [line]})
+            continue
+        tot = sum(p for _, p in keep)
+        want = [(m, p / tot) for m, p in keep]
+        if not sorted_close(sorted(ip[1]), sorted(want)):
+            corr_ok = False
+            r.violation("pruned", wit, f"isotopic_convolution({line.split(chr(9))[1]}, t={float(t)}): {len(merge_by_mass(sorted(ip[1])))} merged peaks returned; "
+                        f"{len(merge_by_mass(sorted(want)))} isotopologues have an arrangement probability >= t (or masses / ratios differ)",
+                        observed={"lines": [line], "impl": il[:300]})
+            continue
+        mp = parse_pattern(ml.split("\t")[0])
+        if not isinstance(mp, str) and not sorted_close(sorted(ip[1]), sorted(mp[1])):
+            corr_ok = False
+            r.violation("corr", wit, f"isotopic_convolution({line.split(chr(9))[1]}, t={float(t)}): impl and model peak lists differ",
+                        expected=ml[:300], observed={"lines": [line], "impl": il[:300]}, kind="corr_broken")
+    r.coverage["pruned_big_cases"] = len(big)
     r.coverage["charged_calls"] = len(cmeta)
     r.coverage["boundary_skipped"] = skipped
     r.oblige("correspondence: isotopic_convolution agrees with the model and the exact arrangement enumeration", "corr", corr_ok)
